@@ -29,7 +29,10 @@ pub(crate) fn normalize_path(p: PathBuf) -> PathBuf {
 }
 
 use crate::ast::typecheck::DeriveShape;
-use crate::ast::{Expression, ImportShape, Position, PositionedItem, Shape, Statement, Token};
+use crate::ast::{
+    Expression, ImportShape, NarrowedShape, NarrowingShape, Position, PositionedItem, Shape,
+    Statement, Token,
+};
 use crate::error::{BuildError, ErrorType};
 use crate::iter::OffsetStrIter;
 use crate::parse::parse;
@@ -211,6 +214,30 @@ fn shape_in_file(shape: Shape, file: &Path) -> Shape {
             let ret = shape_in_file(mdef.ret().clone(), file);
             Shape::Module(mdef.with_ret(ret))
         }
+        // What a function of the file returns, the elements of its lists and
+        // the candidates of its selects are tuples of that file as well.
+        Shape::Func(fdef) => {
+            let ret = shape_in_file(fdef.ret().clone(), file);
+            Shape::Func(fdef.with_ret(ret))
+        }
+        Shape::List(NarrowedShape {
+            pos,
+            types: NarrowingShape::Narrowed(items),
+        }) => Shape::List(NarrowedShape {
+            pos,
+            types: NarrowingShape::Narrowed(
+                items.into_iter().map(|s| shape_in_file(s, file)).collect(),
+            ),
+        }),
+        Shape::Narrowed(NarrowedShape {
+            pos,
+            types: NarrowingShape::Narrowed(items),
+        }) => Shape::Narrowed(NarrowedShape {
+            pos,
+            types: NarrowingShape::Narrowed(
+                items.into_iter().map(|s| shape_in_file(s, file)).collect(),
+            ),
+        }),
         other => other,
     }
 }
